@@ -108,7 +108,10 @@ func (p *parser) advance() bool {
 			// ignore
 
 		} else if char == '#' {
-			p.next()
+			// one optional space separates '#' from the comment text
+			if p.next() != ' ' {
+				p.backup()
+			}
 			start := p.position
 			for {
 				c := p.next()
@@ -121,7 +124,10 @@ func (p *parser) advance() bool {
 				p.lastComment.WriteByte('\n')
 			}
 			p.lastComment.WriteString(p.input[start:p.position])
-			p.next()
+			// consume the newline that ends the comment; at end of input there is none
+			if p.next() != '\n' {
+				p.backup()
+			}
 
 		} else {
 			p.backup()
